@@ -241,6 +241,12 @@ pub struct Repr<
 
     cache: TinyLFU<K::Key, Arc<RwLock<Entry<C>>>>,
     single_flight: single_flight::SingleFlight<K::Key>,
+
+    /// Bumped whenever staged operations are dropped from the logs because
+    /// they have reached the store. A cache fill that overlaps such a flush
+    /// may have read the store before the commit and the log after the
+    /// flush, so it must not be published.
+    flush_generation: AtomicU64,
 }
 
 impl<K: KeyOfSetColumn, C: ConcurrentSet<Element = K::Element> + 'static>
@@ -264,6 +270,7 @@ impl<K: KeyOfSetColumn, C: ConcurrentSet<Element = K::Element> + 'static>
             single_flight: single_flight::SingleFlight::new(
                 default_shard_amount(),
             ),
+            flush_generation: AtomicU64::new(0),
         }
     }
 
@@ -272,6 +279,9 @@ impl<K: KeyOfSetColumn, C: ConcurrentSet<Element = K::Element> + 'static>
         epoch: Epoch,
         keys: impl IntoIterator<Item = K::Key>,
     ) {
+        // must happen before any log is truncated, see `get_entry`
+        self.flush_generation.fetch_add(1, Ordering::SeqCst);
+
         for key in keys {
             let result = self.staging.get_map(&key, |x| {
                 let count = x.dirty.fetch_sub(1, Ordering::SeqCst);
@@ -397,6 +407,8 @@ impl<
         Option<Spilled<C, Db::ScanMemberIterator<K>>>,
     ) {
         loop {
+            let flush_generation =
+                self.repr.flush_generation.load(Ordering::SeqCst);
             let staging_snapshot = self.get_staging_snapshot(key);
             let mut spilled = None;
 
@@ -445,14 +457,38 @@ impl<
                             for element in &late.removed {
                                 set.remove_element(element);
                             }
+
+                            // Operations that were committed and flushed
+                            // out of the log while the members were being
+                            // read are in neither the members read nor the
+                            // late snapshot. Take the entry back and read
+                            // again.
+                            if self
+                                .repr
+                                .flush_generation
+                                .load(Ordering::SeqCst)
+                                != flush_generation
+                            {
+                                self.repr.cache.entry(key.clone(), |e| {
+                                    if let tiny_lfu::Entry::Occupied(occupied) =
+                                        e
+                                    {
+                                        if Arc::ptr_eq(occupied.get(), &entry) {
+                                            drop(occupied.remove());
+                                        }
+                                    }
+                                });
+
+                                return None;
+                            }
                         }
                     }
 
-                    entry
+                    Some(entry)
                 })
                 .await;
 
-            if let Some(entry) = entry {
+            if let Some(Some(entry)) = entry {
                 return (entry, staging_snapshot, spilled);
             }
         }
